@@ -198,3 +198,6 @@ func VerifNewQueueStore(compiled config.Compiled, dbPath string) (queue.Store, f
 	store, _, closeFn, err := newQueueStore(compiled, dbPath, "")
 	return store, closeFn, err
 }
+
+// SetQueueStore attaches the store the adaptive admission controller reads its pressure signals from (as run() does).
+func (v *VerifRuntime) SetQueueStore(store queue.Store) { v.state.setQueueStore(store) }
